@@ -403,6 +403,10 @@ class Wire:
                 labels = [self.w_label(x, subst) for x in val.elts]
             elif isinstance(val, ast.Name) and val.id in subst and "flags" in subst[val.id]:
                 labels = subst[val.id]["flags"]
+            elif isinstance(val, ast.Name) and len([a for a in ast.walk(f.node) if isinstance(a, ast.Assign) and len(a.targets) == 1 and isinstance(a.targets[0], ast.Name) and a.targets[0].id == val.id]) == 1 and isinstance(next(a for a in ast.walk(f.node) if isinstance(a, ast.Assign) and len(a.targets) == 1 and isinstance(a.targets[0], ast.Name) and a.targets[0].id == val.id).value, ast.List):
+                # the flag list goes through a local assigned exactly once
+                lst = next(a for a in ast.walk(f.node) if isinstance(a, ast.Assign) and len(a.targets) == 1 and isinstance(a.targets[0], ast.Name) and a.targets[0].id == val.id).value
+                labels = [self.w_label(x, subst) for x in lst.elts]
             else:
                 raise AnalysisError(f"{f.qualname}:{c.lineno}: write_flags argument is not a list literal")
             return [("FLAGS", tuple(labels))]
